@@ -8,6 +8,7 @@ import ExoModel.Wf
 import ExoModel.Rewrite
 import ExoModel.Equiv
 import ExoModel.Lemmas.Rewrites
+import ExoModel.Lemmas.WfRewrite
 
 set_option linter.unusedSectionVars false
 namespace Exo.C04
@@ -76,5 +77,37 @@ theorem cut_loop_wf (Γ : Env) (i : Sym) (lo mid hi : Expr) (b : List Stmt) (par
     obtain ⟨⟨⟨hf, hlo⟩, hhi⟩, hb⟩ := hcond
     simp [wfL, wfS, hf, hlo, hhi, hb, hm]
   · cases h
+
+/-- **well-formedness under path-addressed rewriting**: a local rewrite that maps well-formed
+    block suffixes to well-formed suffixes (with the same names in scope afterwards), applied at
+    ANY address inside loops and branches of a well-formed procedure body, gives a well-formed
+    body -/
+theorem rewrite_at_address_wf (f : Rw.Local) (hf : WfLocal f) (path : Rw.Path) (Γ Γ' : Env)
+    (body body' : List Stmt) (h : Rw.rewriteAt f path body = some body')
+    (hw : wfL Γ body = some Γ') : wfL Γ body' = some Γ' :=
+  rewriteAt_wf f hf path Γ Γ' body body' h hw
+
+/-- `insert_pass` at any gap keeps any procedure well formed -/
+theorem insert_pass_wf_anywhere (before : Bool) (path : Rw.Path) (Γ Γ' : Env) (body body' : List Stmt)
+    (h : Rw.rewriteAt (if before then Rw.insertPassBefore else Rw.insertPassAfter) path body = some body')
+    (hw : wfL Γ body = some Γ') : wfL Γ body' = some Γ' := by
+  refine rewrite_at_address_wf _ ?_ path Γ Γ' body body' h hw
+  intro Δ Δ' ss r hr hws
+  cases before
+  · cases ss with
+    | nil => simp [Rw.insertPassAfter] at hr
+    | cons s t =>
+      simp only [Rw.insertPassAfter, if_false, Bool.false_eq_true, Option.some.injEq] at hr
+      subst hr
+      simp only [wfL] at hws ⊢
+      cases h1 : wfS Δ s with
+      | none => rw [h1] at hws; cases hws
+      | some Δ1 => rw [h1] at hws; simpa [wfS, wfL] using hws
+  · cases ss with
+    | nil => simp [Rw.insertPassBefore] at hr
+    | cons s t =>
+      simp only [Rw.insertPassBefore, if_true, Option.some.injEq] at hr
+      subst hr
+      simpa [wfL, wfS] using hws
 
 end Exo.C04
